@@ -356,6 +356,8 @@ class TermDomain(Domain):
             if k is not None:
                 return [(K(k.numerator if m == "numer" else k.denominator), store)]
             return [(T(m, a), store)]
+        if m in ("magnitude", "into_parts") and len(vals) == 1 and m == "magnitude":
+            return [(T("abs", a), store)]
         if m in ("trunc", "floor", "ceil", "round", "abs", "signum", "sign", "to_integer", "fract") and len(vals) == 1:
             return [(T(m, a), store)]
         if m in ("to_i32", "to_i64", "to_u32", "to_f64", "to_f32", "to_i128", "to_u128", "to_u64", "to_usize", "to_isize",
